@@ -177,10 +177,13 @@ fn generate(seed: u64, n: usize, tier: &str, out: &mut impl Write) {
     let mut rng = SplitMix64(seed);
 
     // 1. exhaustive tables over {a,b,c}
-    let (kmax, len) = if thorough { (3usize, 5usize) } else { (2, 4) };
+    // (Coq parses the implementation's answers at roughly a numeral per millisecond, which
+    // bounds the volume: words up to 6 for <= 2 entries, up to 4 for all 3600 3-entry tables)
+    let (kmax, len) = if thorough { (3usize, 6usize) } else { (2, 4) };
     for k in 0..=kmax {
         let tag = format!("exh-m{}", k);
-        tables(&abc, k, &mut Vec::new(), &mut |t| emit(out, &base_spec(t.to_vec()), &abc, len, &[], &tag));
+        let l = if k == 3 { 4 } else { len };
+        tables(&abc, k, &mut Vec::new(), &mut |t| emit(out, &base_spec(t.to_vec()), &abc, l, &[], &tag));
     }
     // the same small tables with a supplied vocabulary whose ids are scrambled
     for k in 1..=2 {
@@ -207,7 +210,7 @@ fn generate(seed: u64, n: usize, tier: &str, out: &mut impl Write) {
     for i in 0..nsamp {
         let k = if thorough { 4 } else { 3 + (i % 2) };
         let t = random_table(&mut rng, &abc, k);
-        emit(out, &base_spec(t), &abc, len, &[], &format!("samp-m{}", k));
+        emit(out, &base_spec(t), &abc, if thorough { 5 } else { 4 }, &[], &format!("samp-m{}", k));
     }
     // two-symbol alphabet, longer words: long runs of one symbol, deep tables
     let ab: Vec<String> = abc[..2].to_vec();
